@@ -61,7 +61,7 @@ func (s *Stats) Fault(kind string)         { s.Faults[kind]++ }
 func (s *Stats) FaultN(kind string, n int) { s.Faults[kind] += int64(n) }
 func (s *Stats) Probe(name string)         { s.Probes[name]++ }
 func (s *Stats) ProbeN(name string, n int) { s.Probes[name] += int64(n) }
-func (s *Stats) Distinct(h uint64) { s.DistinctW(h, 1) }
+func (s *Stats) Distinct(h uint64)         { s.DistinctW(h, 1) }
 
 // DistinctW records a distinct case family identified by h that stands for w
 // distinct non-trivial cases (e.g. a program with w distinct fault points).
@@ -95,9 +95,10 @@ func (s *Stats) Sample(x interface{}) {
 }
 func (s *Stats) WantSample() bool { return len(s.Samples) < s.maxSample }
 func (s *Stats) Event(format string, args ...interface{}) {
-	if len(s.Events) < 400 {
-		s.Events = append(s.Events, fmt.Sprintf(format, args...))
+	if len(s.Events) >= 400 {
+		s.Events = append(s.Events[:0], s.Events[200:]...) // keep the most recent events
 	}
+	s.Events = append(s.Events, fmt.Sprintf(format, args...))
 }
 
 // Engine is one simulation engine. Run executes exactly one simulated run, a
